@@ -78,7 +78,9 @@ class PickupManager:
         """
         manager = cls(optic)
         for pickup_data in data:
-            manager.add(**pickup_data)
+            # register only: the saved surfaces already are the lens state
+            # (add() would apply the pickup and change what was loaded)
+            manager.pickups.append(Pickup.from_dict(optic, pickup_data))
         return manager
 
 
